@@ -11,6 +11,7 @@ The `…_partial`-style theorems are stated on the decidable complements `addOpe
 driver evaluates on every operand it is given.
 -/
 import SymVerif.Lemmas.C04MulN
+import SymVerif.Lemmas.C04MulSN
 import SymVerif.Lemmas.C04MaxMin
 import SymVerif.Lemmas.C04Logic
 
@@ -276,6 +277,128 @@ theorem witness_add_sum_as_term :
         = some (key (normOrder (.add (.int 0) [(wS, .int 1), (wx, .int 1)])))
     ∧ ((addE w2S wmS).toOption.bind (fun r => (addE wx r).toOption)).map key
         = some (key (normOrder (.add (.int 0) [(wx, .int 2), (wy, .int 1)]))) := by decide
+
+/-! ### Mul, symbolic-exponent fragment: opaque bases whose exponents are arbitrary summands of the safe
+Add fragment (numbers, symbols, sums, products, powers …), coefficients in ℚ(i) \ {0}.  Contains the
+numeric-exponent fragment; the exponent arithmetic is `add` of the model (`addE_*` above). -/
+
+theorem expOK_iff {e : Expr} : addOperandOK e = true ↔ expOK e := addOperandOK_iff
+
+theorem nrSB_iff {s : Expr × Dict} : nrSB s = true ↔ NRS s := by
+  unfold nrSB NRS mfacOKS DOKG
+  simp only [Bool.and_eq_true, List.all_eq_true, Bool.not_eq_true', exNum_iff, keysSorted_iff]
+  have hz : ∀ {v : Expr}, expOK v → ((isInteger v && numIsZero v) = false ↔ expVal v ≠ 0) := by
+    intro v hv
+    have := expIsZ_iff hv
+    unfold expIsZ at this
+    constructor
+    · intro h h0
+      rw [this.mpr h0] at h
+      cases h
+    · intro h
+      cases hb : (isInteger v && numIsZero v) with
+      | false => rfl
+      | true => exact absurd (this.mp hb) h
+  constructor
+  · rintro ⟨⟨⟨h1, h2⟩, h3⟩, h4⟩
+    refine ⟨h1, ?_, ⟨h3, ?_⟩, fun p hp => ⟨(h4 p hp).1.1.1, (h4 p hp).1.1.2⟩⟩
+    · intro h0
+      rw [(numIsZero_iff h1).mpr h0] at h2
+      cases h2
+    · intro p hp
+      have hok : expOK p.2 := expOK_iff.mp (h4 p hp).1.2
+      exact ⟨hok, (hz hok).mp (h4 p hp).2⟩
+  · rintro ⟨h1, h2, ⟨h3, h4⟩, h5⟩
+    refine ⟨⟨⟨h1, numIsZero_false h1 h2⟩, h3⟩, ?_⟩
+    intro p hp
+    exact ⟨⟨⟨(h5 p hp).1, (h5 p hp).2⟩, expOK_iff.mpr (h4 p hp).1⟩, (hz (h4 p hp).1).mpr (h4 p hp).2⟩
+
+theorem mulOperandOKS_iff {a : Expr} : mulOperandOKS a = true ↔ (MOKS a ∧ exact a = true) := by
+  unfold mulOperandOKS MOKS
+  simp only [Bool.and_eq_true, nrSB_iff, eqE_iff']
+  constructor
+  · rintro ⟨⟨h1, h2⟩, h3⟩
+    exact ⟨⟨h2, h3⟩, h1⟩
+  · rintro ⟨⟨h2, h3⟩, h1⟩
+    exact ⟨⟨h1, h2⟩, h3⟩
+
+private theorem moks_all {l : List Expr} (h : ∀ a ∈ l, mulOperandOKS a = true) :
+    ∀ a ∈ l, MOKS a ∧ exact a = true := fun a ha => mulOperandOKS_iff.mp (h a ha)
+
+theorem mulTree_eq_mulNO_sym (rv rv' : Bool) (t : BTree) (h : ∀ a ∈ t.leaves, mulOperandOKS a = true)
+    (hfu : tlen t.leaves + 6 ≤ defaultFuel) :
+    evalT (mulEO rv) t = mulNO rv' t.leaves := by
+  obtain ⟨r, h1, h2, _, h4⟩ := evalTS_mul rv t (moks_all h) hfu
+  rw [h1, mulNOS_eq (moks_all h) hfu, ← h4, h2.2]
+
+theorem mulNO_perm_sym (rv rv' : Bool) {l₁ l₂ : List Expr} (hp : l₁.Perm l₂)
+    (h : ∀ a ∈ l₁, mulOperandOKS a = true) (hfu : tlen l₁ + 6 ≤ defaultFuel) :
+    mulNO rv l₁ = mulNO rv' l₂ := by
+  have h2 : ∀ a ∈ l₂, mulOperandOKS a = true := fun a ha => h a (hp.mem_iff.mpr ha)
+  have hlen : tlen l₂ = tlen l₁ := by
+    unfold tlen
+    exact ((hp.map dlen).sum_eq).symm
+  rw [mulNOS_eq (moks_all h) hfu, mulNOS_eq (moks_all h2) (by omega),
+    rprodS_perm hp (fun a ha => (moks_all h a ha).1) _ NRS_unit]
+
+/-- all bracketings of all permutations of the same factors agree, whatever the iteration orders
+(the property itself, for products with symbolic exponents on opaque bases) -/
+theorem mulTree_perm_sym (rv rv' : Bool) (t₁ t₂ : BTree) (hp : t₁.leaves.Perm t₂.leaves)
+    (h : ∀ a ∈ t₁.leaves, mulOperandOKS a = true) (hfu : tlen t₁.leaves + 6 ≤ defaultFuel) :
+    evalT (mulEO rv) t₁ = evalT (mulEO rv') t₂ := by
+  have h2 : ∀ a ∈ t₂.leaves, mulOperandOKS a = true := fun a ha => h a (hp.mem_iff.mpr ha)
+  have hlen : tlen t₂.leaves = tlen t₁.leaves := by
+    unfold tlen
+    exact ((hp.map dlen).sum_eq).symm
+  rw [mulTree_eq_mulNO_sym rv false t₁ h hfu, mulTree_eq_mulNO_sym rv' false t₂ h2 (by omega),
+    mulNO_perm_sym false false hp h hfu]
+
+theorem mulEO_comm_sym (rv rv' : Bool) {a b : Expr} (ha : mulOperandOKS a = true)
+    (hb : mulOperandOKS b = true) (hfu : dlen a + dlen b + 6 ≤ defaultFuel) :
+    mulEO rv a b = mulEO rv' b a := by
+  have := mulTree_perm_sym rv rv' (.node (.leaf a) (.leaf b)) (.node (.leaf b) (.leaf a))
+    (by simp [BTree.leaves]; exact List.Perm.swap b a [])
+    (by intro x hx; simp [BTree.leaves] at hx; rcases hx with rfl | rfl <;> assumption)
+    (by simp [BTree.leaves, tlen]; omega)
+  simpa [evalT] using this
+
+theorem mulEO_assoc_sym (rv rv' : Bool) {a b c : Expr} (ha : mulOperandOKS a = true)
+    (hb : mulOperandOKS b = true) (hc : mulOperandOKS c = true)
+    (hfu : dlen a + dlen b + dlen c + 6 ≤ defaultFuel) :
+    (do let ab ← mulEO rv a b; mulEO rv ab c) = (do let bc ← mulEO rv' b c; mulEO rv' a bc) := by
+  have := mulTree_perm_sym rv rv' (.node (.node (.leaf a) (.leaf b)) (.leaf c))
+    (.node (.leaf a) (.node (.leaf b) (.leaf c)))
+    (by simp [BTree.leaves])
+    (by intro x hx; simp [BTree.leaves] at hx; rcases hx with rfl | rfl | rfl <;> assumption)
+    (by simp [BTree.leaves, tlen]; omega)
+  simpa [evalT] using this
+
+theorem mulEO_closed_sym (rv : Bool) {a b : Expr} (ha : mulOperandOKS a = true)
+    (hb : mulOperandOKS b = true) (hfu : dlen a + dlen b + 6 ≤ defaultFuel) :
+    ∃ r, mulEO rv a b = .ok r ∧ mulOperandOKS r = true ∧ dlen r ≤ dlen a + dlen b := by
+  obtain ⟨r, h1, h2, h3, h4⟩ := evalTS_mul rv (.node (.leaf a) (.leaf b))
+    (moks_all (l := [a, b]) (by intro x hx; simp at hx; rcases hx with rfl | rfl <;> assumption))
+    (by simp [BTree.leaves, tlen]; omega)
+  refine ⟨r, by simpa [evalT] using h1, mulOperandOKS_iff.mpr ⟨h2, h3⟩, ?_⟩
+  have := rprodS_len [a, b] (one, [])
+  simp only [dlen, h4]
+  simpa [BTree.leaves, tlen, dlen] using this
+
+section MulSymExamples
+private def ux : Expr := .sym "x"
+private def uy : Expr := .sym "y"
+private def uz : Expr := .sym "z"
+private def xPowY : Expr := .pow ux uy                                        -- x**y
+private def xPowHalfMinusY : Expr := .pow ux (.add (.rat 1 2) [(uy, .int (-1))])   -- x**(1/2 - y)
+private def xPow2z : Expr := .pow ux (.mul (.int 2) [(uz, .int 1)])           -- x**(2*z)
+private def threeXzY : Expr := .mul (.int 3) (sortDict [(ux, uz), (uy, .int (-2))])  -- 3*x**z*y**-2
+
+example : [xPowY, xPowHalfMinusY, xPow2z, threeXzY, ux, imagUnit].all mulOperandOKS = true := by decide
+-- x**y * x**(1/2 - y) = x**(1/2); the exponents are added with `add`
+example : (mulE xPowY xPowHalfMinusY).toOption.map key = some (key (.pow ux (.rat 1 2))) := by decide
+example : (mulNO false [xPowY, threeXzY, xPowHalfMinusY, imagUnit, xPow2z]).toOption.map key
+    = (mulNO true [xPow2z, imagUnit, xPowHalfMinusY, threeXzY, xPowY]).toOption.map key := by decide
+end MulSymExamples
 
 /-! ### max / min, and / or -/
 
